@@ -266,3 +266,28 @@ package definition
 //@   ensures err == nil ==> context.tokenHas == store(old(context.tokenHas), token.TokenStandard, true) && context.tokenOwner == store(old(context.tokenOwner), token.TokenStandard, token.Owner) && context.tokenTotal == store(old(context.tokenTotal), token.TokenStandard, val(token.TotalSupply)) && context.tokenMax == store(old(context.tokenMax), token.TokenStandard, val(token.MaxSupply)) && context.tokenMintable == store(old(context.tokenMintable), token.TokenStandard, token.IsMintable) && context.tokenBurnable == store(old(context.tokenBurnable), token.TokenStandard, token.IsBurnable)
 //@   ensures err != nil ==> context.tokenHas == old(context.tokenHas) && context.tokenTotal == old(context.tokenTotal) && context.tokenMax == old(context.tokenMax) && context.tokenOwner == old(context.tokenOwner)
 //@   modifies MF:common/db.DB.token*
+
+// ---- bridge contract: signed unwrap requests, keyed by (transaction hash, log index) (property C10) ------------------------------
+//@ model github.com/zenon-network/go-zenon/common/db:DB unwrapHas map[arr]map[int]bool
+//@ model github.com/zenon-network/go-zenon/common/db:DB unwrapRedeemed map[arr]map[int]int
+//@ model github.com/zenon-network/go-zenon/common/db:DB unwrapRevoked map[arr]map[int]int
+//@ model github.com/zenon-network/go-zenon/common/db:DB unwrapAmt map[arr]map[int]int
+//@ model github.com/zenon-network/go-zenon/common/db:DB unwrapTo map[arr]map[int]arr
+//@ model github.com/zenon-network/go-zenon/common/db:DB unwrapReg map[arr]map[int]int
+//@ func GetUnwrapTokenRequestByTxHashAndLog(context, txHash, logIndex) -> (req, err)
+//@   trusted
+//@   ensures err == nil <==> context.unwrapHas[txHash][logIndex]
+//@   ensures err == nil ==> req != nil && fresh(req) && req.TransactionHash == txHash && req.LogIndex == logIndex && req.Redeemed == context.unwrapRedeemed[txHash][logIndex] && req.Revoked == context.unwrapRevoked[txHash][logIndex] && req.Amount != nil && val(req.Amount) == context.unwrapAmt[txHash][logIndex] && req.ToAddress == context.unwrapTo[txHash][logIndex] && req.RegistrationMomentumHeight == context.unwrapReg[txHash][logIndex]
+//@   ensures err != nil ==> req == nil
+//@   modifies nothing
+//@ func UnwrapTokenRequest.Save(unwrapRequest, context) -> (err)
+//@   trusted
+//@   requires unwrapRequest != nil && unwrapRequest.Amount != nil
+//@   ensures err == nil ==> context.unwrapHas == store(old(context.unwrapHas), unwrapRequest.TransactionHash, store(old(context.unwrapHas[unwrapRequest.TransactionHash]), unwrapRequest.LogIndex, true)) && context.unwrapRedeemed == store(old(context.unwrapRedeemed), unwrapRequest.TransactionHash, store(old(context.unwrapRedeemed[unwrapRequest.TransactionHash]), unwrapRequest.LogIndex, unwrapRequest.Redeemed)) && context.unwrapRevoked == store(old(context.unwrapRevoked), unwrapRequest.TransactionHash, store(old(context.unwrapRevoked[unwrapRequest.TransactionHash]), unwrapRequest.LogIndex, unwrapRequest.Revoked))
+//@   ensures err == nil ==> context.unwrapAmt == store(old(context.unwrapAmt), unwrapRequest.TransactionHash, store(old(context.unwrapAmt[unwrapRequest.TransactionHash]), unwrapRequest.LogIndex, val(unwrapRequest.Amount))) && context.unwrapTo == store(old(context.unwrapTo), unwrapRequest.TransactionHash, store(old(context.unwrapTo[unwrapRequest.TransactionHash]), unwrapRequest.LogIndex, unwrapRequest.ToAddress)) && context.unwrapReg == store(old(context.unwrapReg), unwrapRequest.TransactionHash, store(old(context.unwrapReg[unwrapRequest.TransactionHash]), unwrapRequest.LogIndex, unwrapRequest.RegistrationMomentumHeight))
+//@   ensures err != nil ==> context.unwrapHas == old(context.unwrapHas) && context.unwrapRedeemed == old(context.unwrapRedeemed)
+//@   modifies MF:common/db.DB.unwrap*
+//@ func GetNetworkInfoVariable(context, networkClass, chainId) -> (info, err)
+//@   trusted
+//@   ensures err == nil ==> info != nil && fresh(info) && (forall k int :: 0 <= k && k < len(info.TokenPairs) ==> true)
+//@   modifies nothing
